@@ -232,9 +232,12 @@ func (tr *tokenReader) nextIdent(firstRune rune) bool {
 func (tr *tokenReader) skipFollowingWhitespace() {
 	for {
 		b, err := tr.readByte()
+		if err == io.EOF {
+			// nothing was read, so there is nothing to unread
+			return
+		}
 		if err != nil {
-			// nothing was read, so there is nothing to unread; the next
-			// token read reports the error (or the end of the input)
+			tr.addError(err)
 			return
 		}
 		switch b {
